@@ -188,6 +188,17 @@ func (g *gen) build(op byte) *opCase {
 		imm = []byte{byte(t), byte(t >> 8), byte(t >> 16), 0}
 	}
 	s.Code = append(append(append(prefix, op), imm...), suffix...)
+	// Now and then the whole program runs as the predicate of a CHECKPREDICATE over all arguments: what a
+	// failing instruction leaves behind (run limit, stack) then shows in what the parent gets back.
+	if !c.noPeak && r.Chance(1, 6) {
+		limit := []int{0, 0, 1, 5, 12, 30, 70, 300, 1100, 5000}[r.Intn(10)]
+		var p []byte
+		p = append(p, refvm.PushData(nil)...) // n = 0: all items
+		p = append(p, refvm.PushData(s.Code)...)
+		p = append(p, refvm.PushData(small(limit))...)
+		s.Code = append(p, 0xc0)
+		c.shape = "as-predicate"
+	}
 	return c
 }
 
